@@ -271,11 +271,16 @@ def main(argv):
     rc = pr.run(mod)
     if a.write_baseline:
         p = os.path.join(VERIF, 'baseline_obligations.json')
-        base = load_baseline()
-        base = {k: v for k, v in base.items() if not k.startswith(a.prop + '/')}
-        for k, o in pr.named.items():
-            base[k] = o['status']
-        json.dump(base, open(p, 'w'), indent=0, sort_keys=True)
+        import fcntl
+        with open(p + '.lock', 'w') as lk:          # several checks may be run in parallel: one writer at a time
+            fcntl.flock(lk, fcntl.LOCK_EX)
+            base = load_baseline()
+            base = {k: v for k, v in base.items() if not k.startswith(a.prop + '/')}
+            for k, o in pr.named.items():
+                base[k] = o['status']
+            tmp = p + '.tmp.%d' % os.getpid()
+            json.dump(base, open(tmp, 'w'), indent=0, sort_keys=True)
+            os.replace(tmp, p)
     return rc
 
 
